@@ -52,13 +52,24 @@ LEVEL_TEXT = ("Proof (all schedules, all MaxConcurrentCalls >= 1 / queue sizes /
               "model: calls holding a slot never exceed MaxConcurrentCalls; gate (at most one started-and-unacknowledged call; "
               "a later call of the same caller is entered only after the earlier ones returned, implementations are seen in "
               "issue order); every call - direct or pipelined - completes at most once and exactly once from its completing "
-              "step on; calls queued on a pending answer are processed in queue order, all of them once it returns, delivered "
-              "or failed with the answer's error, pass-through calls only after the queue; user Shutdown runs at most once, "
-              "only when no call holds a slot, cancels running calls, nothing starts after Shutdown began; deadlock freedom "
-              "(a library step is enabled or the application holds the ball) and per-thread termination measures.")
-LEVEL_NOTE = ("Trusted: Coq kernel, extraction, the hand-written model, the trace acceptor, the synctest harness. Known finding: "
-              "self-pipelining deadlock (result contains the server's own capability) - outside the model's assumption that "
-              "pipelined calls are delivered to capabilities other than the server. Partial: termination measure of the gate "
-              "wait loop in start (C12_start_measure_partial).")
+              "step on; calls queued on a pending answer are processed in queue order, all of them once it returns, each "
+              "delivered or failed with the answer's error (or the error of the queued call it was pipelined on), pass-through "
+              "and mid-drain calls only after the queue; delivery TARGET (repaired code only, premise p_fixed = true; the "
+              "statement is shown to fail for the code before the fix): every delivery goes to the result of the call it was "
+              "pipelined on, or to that call's pipeline caller while it is still running - never to another answer; user "
+              "Shutdown runs at most once, only when no call holds a slot, cancels running calls, nothing starts after Shutdown "
+              "began; no Go panic is reachable; blocked callers are released when the drain starts; deadlock freedom (a library "
+              "step is enabled or the application holds the ball) and per-thread termination measures.")
+LEVEL_NOTE = ("Trusted: Coq kernel, extraction, the hand-written model, the trace acceptor, the synctest harness. All theorems "
+              "except the three target theorems hold for both code variants (they say nothing about the target). The transform "
+              "(pointer path inside the result) is opaque in the model: that the capability at the right PATH is used is checked "
+              "by the harness only (fields 0, 1, 257). Known finding: self-pipelining deadlock (result contains the server's own "
+              "capability) - outside the model's assumption that pipelined calls are delivered to capabilities independent of the "
+              "server; for the same reason returnEmbargoer.Return's calls.Wait() and capnp.Promise's wait for in-flight calls are "
+              "not modelled (targets return when told to; covered by the runs with PipelineSend-mode calls). Under-approximation: "
+              "when ack and done are both ready start's select is modelled as taking the ack arm (Go picks either; the only "
+              "difference is a nil PipelineCaller for an already-returned call). C12_program_order is the caller's program order "
+              "built into the model (pred_done); the library content is C12_gate_same_caller / C12_seen_in_order. Partial: "
+              "termination measure of the gate wait loop in start (C12_start_measure_partial: no bound on re-waits).")
 TECHNIQUE = "Coq proof over a small-step concurrent model (all interleavings) + trace acceptance of synctest histories by the extracted model"
 DESIGN_REF = "DESIGN.md section 6, C12"
